@@ -97,6 +97,48 @@ func (zeroReader) Read(p []byte) (int, error) {
 	return len(p), nil
 }
 
+// pointsWithSpecialX: curve points whose x coordinate has a chosen shape (nearest abscissa at or above it)
+func (h *H) pointsWithSpecialX(n int) [][2]*big.Int {
+	one := big.NewInt(1)
+	var xs []*big.Int
+	for _, v := range []int64{1, 2, 3, 4, 1 << 20, (1 << 32) + 900} {
+		xs = append(xs, big.NewInt(v))
+	}
+	xs = append(xs, new(big.Int).Sub(curveP, big.NewInt(3)), new(big.Int).Sub(curveP, big.NewInt(int64(1+h.rng.Intn(1<<20)))))
+	for i := 0; i < n; i++ {
+		x := new(big.Int).SetBytes(h.randBytes(32))
+		lo := uint(26 * h.rng.Intn(9))
+		width := uint(26)
+		switch h.rng.Intn(4) {
+		case 0: // the window just below bit 78 (limb 2 of a Mul2 result is the one that keeps slack)
+			lo, width = 64, 14
+		case 1:
+			lo, width = 52, 26
+		}
+		mask := new(big.Int).Lsh(new(big.Int).Sub(new(big.Int).Lsh(one, width), one), lo)
+		if h.rng.Intn(2) == 0 {
+			x.AndNot(x, mask)
+		} else {
+			x.Or(x, mask)
+		}
+		xs = append(xs, x.Mod(x, curveP))
+	}
+	var out [][2]*big.Int
+	for _, x0 := range xs {
+		x := new(big.Int).Set(x0)
+		for k := 0; k < 64; k++ {
+			y2 := new(big.Int).Exp(x, big.NewInt(3), curveP)
+			y2.Add(y2, big.NewInt(7)).Mod(y2, curveP)
+			if y := new(big.Int).ModSqrt(y2, curveP); y != nil {
+				out = append(out, [2]*big.Int{new(big.Int).Set(x), y})
+				break
+			}
+			x.Add(x, one).Mod(x, curveP)
+		}
+	}
+	return out
+}
+
 func genC14(h *H) {
 	n := 6 * h.budget
 	for i := 0; i < n; i++ {
@@ -107,6 +149,23 @@ func genC14(h *H) {
 		for enc := 0; enc < 4; enc++ {
 			h.do("a-with-B", "ecdh", hx(be32(a)), hx(ub[1:33]), hx(ub[33:65]), strconv.Itoa(enc))
 			h.do("b-with-A", "ecdh", hx(be32(b)), hx(ua[1:33]), hx(ua[33:65]), strconv.Itoa(enc))
+		}
+	}
+	// shared secrets with a chosen x: the peer key is Q = a^-1 * S for a point S whose x is tiny (below 2^32+977:
+	// the un-reduced product x+p still fits 256 bits), has whole 26-bit limbs / the window above bit 64 cleared
+	// or saturated, or is just below p - so the x that is serialised walks the limb boundaries
+	for _, S := range h.pointsWithSpecialX(4 * h.budget) {
+		a := h.randKeyInt()
+		ainv := new(big.Int).ModInverse(a, curveN)
+		var ks secp.ModNScalar
+		ks.SetByteSlice(be32(ainv))
+		sp := jacFrom(jacOf(S[0], S[1], big.NewInt(1)))
+		var q secp.JacobianPoint
+		secp.ScalarMultNonConst(&ks, &sp, &q)
+		q.ToAffine()
+		qx, qy := q.X.Bytes(), q.Y.Bytes()
+		for enc := 0; enc < 4; enc++ {
+			h.do("special-secret", "ecdh", hx(be32(a)), hx(qx[:]), hx(qy[:]), strconv.Itoa(enc))
 		}
 	}
 	// peer keys built from a chosen x^3 / a small y (see specialPoints), in every encoding
@@ -144,6 +203,13 @@ func genC15(h *H) {
 			new(big.Int).Mul(curveN, big.NewInt(int64(2+h.rng.Intn(1000)))).Bytes(),
 			append(make([]byte, 1+h.rng.Intn(8)), h.randBytes(32)...),
 			append(make([]byte, 40), 5),
+			// long scalars around multiples of 2^256 (a fold hi*(2^256-N)+lo that carries out of 256 bits):
+			// 2^256+N, 33 x ff, hi || (2^256 - small), hi || (N +- small), 34..40 bytes of ff
+			append([]byte{1}, be32(curveN)...), bytesRepeat(0xff, 33), bytesRepeat(0xff, 34+h.rng.Intn(7)),
+			append([]byte{byte(1 + h.rng.Intn(255))}, be32(new(big.Int).Sub(new(big.Int).Lsh(big.NewInt(1), 256), big.NewInt(int64(1+h.rng.Intn(1000)))))...),
+			append([]byte{byte(1 + h.rng.Intn(255))}, be32(new(big.Int).Add(curveN, big.NewInt(int64(h.rng.Intn(5)-2))))...),
+			append([]byte{byte(1 + h.rng.Intn(255)), byte(h.rng.Intn(256))}, bytesRepeat(0xff, 32)...),
+			append([]byte{0xff}, be32(h.chainWalk(new(big.Int).Sub(new(big.Int).Lsh(big.NewInt(1), 256), big.NewInt(1)), 32, 8))...),
 		} {
 			h.do("scalar-mult", "ad_smul", X1, Y1, hx(k))
 			if i < 2 {
